@@ -48,6 +48,8 @@ var hostile = map[string]string{
 	// text that looks like an Atlas directive (file formats are comment-line based)
 	"dirdelim": "cfg atlas:delimiter $$", "dirsum": "x atlas:sum ignore", "dirtx": "atlas:txmode none", "dirck": "atlas:checkpoint",
 	// values that start and end with the same quote character but are not a quoted literal
+	// parentheses (planners tell names from expressions by looking for them)
+	"paren": "a (b", "parensemi": "n; (d", "parenclose": "a) b", "parens": "f(a, b)",
 	"sqwrap": "'it's; x'", "dqwrap": `"a";"b"`, "sqpair": "'a';'b'",
 }
 
@@ -79,6 +81,8 @@ type Case struct {
 	Formatter string `json:"formatter"`
 	Indent    string `json:"indent"`
 	Delim     string `json:"delim"`
+	// Unnamed: the plan has no name (`atlas migrate diff` without a name argument)
+	Unnamed bool `json:"unnamed,omitempty"`
 }
 
 func applicable(d, place string) bool {
@@ -298,7 +302,11 @@ func planFor(cs Case) (*migrate.Plan, error) {
 		ind := cs.Indent
 		opts = append(opts, func(o *migrate.PlanOptions) { o.Indent = ind })
 	}
-	p, err := d.plan.PlanChanges(context.Background(), "n", changes, opts...)
+	name := "n"
+	if cs.Unnamed {
+		name = ""
+	}
+	p, err := d.plan.PlanChanges(context.Background(), name, changes, opts...)
 	if err != nil {
 		return nil, fmt.Errorf("plan: %w", err)
 	}
@@ -455,6 +463,13 @@ func shrink(c *rt.Ctx, w *rt.W, cs Case) Case {
 			cs = t
 		}
 	}
+	if cs.Unnamed {
+		t := cs
+		t.Unnamed = false
+		if fails(c, w, t) {
+			cs = t
+		}
+	}
 	if cs.Scenario != "create" {
 		t := cs
 		t.Scenario = "create"
@@ -483,6 +498,9 @@ func key(cs Case, class string) string {
 	}
 	if cs.Scenario != "create" {
 		k += "|" + cs.Scenario
+	}
+	if cs.Unnamed {
+		k += "|unnamed-plan"
 	}
 	return k
 }
@@ -592,6 +610,7 @@ func run(c *rt.Ctx) {
 				for _, ind := range []string{"", "  ", "\t"} {
 					cases = append(cases, Case{Dialect: d, Scenario: sc, Formatter: f, Indent: ind})
 				}
+				cases = append(cases, Case{Dialect: d, Scenario: sc, Formatter: f, Unnamed: true})
 			}
 			// (a delimiter must be expressible by the directive grammar — printable ASCII — and must not be a
 			// quote character, which can never end a statement unambiguously: those are not generated)
@@ -633,6 +652,7 @@ func run(c *rt.Ctx) {
 			fe = append(fe, Feat{Place: p, Name: hn[r.IntN(len(hn))]})
 		}
 		cs := Case{Dialect: d, Feats: fe, Scenario: []string{"create", "drop", "modify", "unmodify", "alter"}[r.IntN(5)], Formatter: formatters[r.IntN(len(formatters))], Indent: []string{"", "  ", "\t"}[r.IntN(3)]}
+		cs.Unnamed = r.IntN(8) == 0
 		if cs.Formatter == "atlas" && r.IntN(4) == 0 {
 			cs.Delim = []string{"\n\n", "$$", "-- end", `\\`, `\g`, ";;", "~~~"}[r.IntN(7)]
 		}
